@@ -73,7 +73,7 @@ class Prog:
         return name
 
     def const_fn(self, name: str, v, **spec) -> str:
-        self.fns[name] = dict({"t": "const", "v": enc(v)}, **spec)
+        self.fns[name] = dict({"t": "const", "v": v if _is_enc(v) else enc(v)}, **spec)
         return name
 
     def prim_fn(self, name: str, p: str, **spec) -> str:
@@ -101,8 +101,9 @@ class Prog:
     def switch(self, d: int, lookup: Sequence[Tuple[Any, int]], dflt: Optional[int] = None) -> int:
         return self._node("switch", d=d, lookup=[[enc(k), i] for k, i in lookup], dflt=dflt)
 
-    def case(self, d: int, cases: Sequence[Tuple[int, int]], dflt: Optional[int] = None) -> int:
-        return self._node("case", d=d, cases=[[c, r] for c, r in cases], dflt=dflt)
+    def case(self, d: int, cases: Sequence[Tuple[int, int]], dflt: Optional[int] = None, **extra) -> int:
+        """extra: ofirst=1 builds `case(d).otherwise(dflt).when(...)...` (same meaning, other call order)"""
+        return self._node("case", d=d, cases=[[c, r] for c, r in cases], dflt=dflt, **extra)
 
     def coalesce(self, ms: Sequence[int]) -> int:
         return self._node("coalesce", ms=list(ms))
@@ -189,6 +190,20 @@ class Prog:
                          "callback": cb, "effects_disabled": effects_disabled, "name": name,
                          "msg": f"Labrea: Evaluating <{kind} {name}>"})
         return self._node("dataset", ds=dsid)
+
+    def derive(self, ds_node: int, p: Dict[str, Any], default: bool = False) -> int:
+        """`ds.with_options(p)` / `ds.with_default_options(p)` as the next operation; returns the node id of the
+        derived dataset (a lazily created node: it exists once the operation has run)"""
+        import copy as _copy
+        src = self.ds_of(ds_node)
+        new_ds = len(self.dss) + 1
+        new_node = self._node("dataset", ds=new_ds)
+        self.nodes[-1]["lazy"] = True
+        self.ops.append({"op": "with_options", "ds": src, "new": new_ds, "p": sort_json(p), "default": default,
+                         "node": new_node, "msg": "<derived>"})
+        self.dss.append(dict(_copy.deepcopy(self.dss[src - 1]), id=new_ds, lazy=True))
+        self._ds = max(self._ds, new_ds)
+        return new_node
 
     def ds_of(self, nid: int) -> int:
         return self.node(nid)["ds"]
